@@ -2,6 +2,7 @@
 from . import *
 from . import partition as P
 from . import containers as CT
+from . import bags as BG
 
 def run(tier, seed, replay=None):
     maxT = 14 if tier == 'quick' else 40
@@ -27,19 +28,29 @@ def run(tier, seed, replay=None):
             msg = ct['msg']
         nrows += ct.get('validated', 0)
         hist_extra = ct.get('extra', {})
+        bg = BG.evaluate(seed, 64 if tier == 'quick' else 1500, tag=tier[0])
+        fails += bg.get('failures', [])
+        if bg.get('msg') and msg is None:
+            msg = bg['msg']
+        nrows += bg.get('validated', 0)
+        hist_extra = dict(hist_extra, two_bag_and_tagged_bag_histories=bg.get('stats', {}), two_bag_sample=bg.get('sample', ''))
         return {'extra': {'histories': ct.get('evaluations', 0), 'history_cases_checked_in_coq': ct.get('validated', 0), 'history_details': hist_extra}, 'ok': msg is None and not fails, 'msg': msg, 'failures': fails, 'validated': nrows,
                 'evaluations': n, 'nontrivial': nt, 'exhaustive': True,
                 'rule': 'every (R in %s, total 0..%d, 4 placements: all on rank 0 / all on last rank / round robin / scattered): insert, rebalance, gather; non-trivial: total not divisible by R or < R' % (sizes, maxT),
                 'samples': samples,
-                'tie': 'T: Gen_rebalance.v regenerated from bag.ipp (target-rank loop of rebalance) and re-proved (Gen_rebalance_correct); the per-rank final counts predicted by the generated loop are compared in Coq with the real rebalance',
+                'tie': 'D: coq/Bag.v (two bags, two tagged bags: inserts, rebalance, shuffles, clear, swap, erase, visit) evaluated by vm_compute on the histories harness/bags.cpp ran on the real containers: returned tags, per-rank and global contents, visits compared. T: Gen_rebalance.v regenerated from bag.ipp (target-rank loop of rebalance) and re-proved (Gen_rebalance_correct); the per-rank final counts predicted by the generated loop are compared in Coq with the real rebalance',
                 'replay': 'simmpi/simrun -n R -- partition_enum bag %d' % maxT}
     def search():
         lines, probs = P.run_mode('bag', 30, list(range(1, 13)), seed + 100)
         if probs:
             return probs
         B, G = P.parse_bag(lines)
-        return P.oracle_bag(B, G, 30)[2]
+        f = P.oracle_bag(B, G, 30)[2]
+        if not f:
+            f = BG.evaluate(seed + 31, 200, tag='s').get('failures', [])
+        return f
     return run_check('C14', tier, seed, 'Properties_C14.v', ['Gen_rebalance'], tie, search,
                      trusted=['tools/cxx2coq.py + coq/Gen/CArith.v', 'simmpi as the MPI under the harness',
-                              'which items move (local_pop takes from the back) is irrelevant to the counts and is not modelled'],
+                              'which items move (local_pop takes from the back) is irrelevant to the counts and is not modelled',
+                              'coq/Bag.v is a hand-written model of bag.ipp / tagged_bag.hpp, tied by the differential histories; the order of items inside a rank and the destinations drawn by global_shuffle are not compared (multisets are)'],
                      assumptions=['T < 2^62, R < 2^31'])
